@@ -40,7 +40,8 @@ def generate(seed, tier):
             continue
         if rng.random() < 0.4:
             # a history on one object: the owner re-assigns parameters / initial values between solves
-            more = _history(rng, ref, name, theta, x0, t0, tmax, box, pos, first_solve=[o for o in ops if not o.get('long')][-1] if [o for o in ops if not o.get('long')] else None)
+            more = _history(rng, ref, name, theta, x0, t0, tmax, box, pos, first_solve=[o for o in ops if not o.get('long')][-1] if [o for o in ops if not o.get('long')] else None,
+                            rounds=3 if tier != "thorough" else 6)
             if more is None:
                 continue
             ops = ops + more
@@ -54,14 +55,14 @@ def generate(seed, tier):
     raise core.HarnessError("no C02 case")
 
 
-def _history(rng, ref, name, theta, x0, t0, tmax, box, pos, first_solve=None):
+def _history(rng, ref, name, theta, x0, t0, tmax, box, pos, first_solve=None, rounds=3):
     """1-3 rounds of (rebind; 1-2 solves).  Every solve is checked against the reference for the values current
     at that point; rounds whose reference leaves the bounded domain are dropped."""
     out = []
     cur_th, cur_x0, cur_t0 = list(theta), list(x0), t0
     prev_solve = first_solve
     names = ref.param_names
-    for _ in range(rng.randint(1, 3)):
+    for _ in range(rng.randint(1, rounds)):
         rb = {"op": "rebind"}
         if ref.p and rng.random() < 0.8:
             th = [solver.rand_in_box(rng, b) for b in box]
